@@ -7,10 +7,12 @@ tie        : harness/extractors/c01.py -> coq/Gen/ConstsC01.v (EPS, Vector table
              implementation's outputs (forward, backward, backward_censored)
 oracle     : numeric round trips on the implementation (relative 1e-6 inside the
              conditioning region of the property), shapes/types through dutils.cast;
-             input class X (threshold exponents x extreme logarithms), the stateful
-             mode (one object, many settings) and the sessions (several live objects,
-             interleaved calls, reused array objects, stored representations of the
-             float64 input) are oracle-only
+             input class X (threshold exponents x extreme logarithms), class E (ends of
+             the conditioning region of the other classes), the stateful mode (one object,
+             many settings), the censored lives (backward_censored on re-used objects with
+             recurring censor values, censors outside / at the end of the domain) and the
+             sessions (several live objects, interleaved calls, reused array objects, stored
+             representations of the float64 input) are oracle-only
 """
 import math
 import os
@@ -138,10 +140,23 @@ def run(ctx):
                 "region of the property; methods forward, backward, backward_censored through the "
                 "public API (direct construction and get_transform); oracle only: class X = exponents at "
                 "and either side of every threshold of the module (EPS, 1e-8, 1e-8+2e-5; 0 and 2) x "
-                "arguments with x+nu resp. 1+|w| in 1e-100..1e100 inside |lam*ln| <= 13.8; stateful = "
+                "arguments with x+nu resp. 1+|w| in 1e-100..1e100 inside |lam*ln| <= 13.8; class E = the "
+                "other classes at the ends of the ranges of the point generator (Logit within 1e-4 of a "
+                "bound, LogSinh w = 1e-4 and 30, arguments of 1e-6 / 1e6, Manly at |lam*u| = 13.8); stateful = "
                 "one object per class and constructor variant taken through a sequence of settings "
                 "(element assignment by attribute / key / key on .params, whole-vector assignment, "
                 "reset()) with round trips and comparison with a fresh object after each step; "
+                "censored lives = one object per class / constructor variant (and a second live object of "
+                "the class, also with other constructor options) through steps that change the constants "
+                "only / the parameters only / one value / all / nothing / back to an earlier setting (every "
+                "setter; values from the branch pool or moved by a factor or offset either way), "
+                "backward_censored after each step with censor values that recur over the whole life (the "
+                "censor of the previous call alone, or all in changing order, one twice; float / "
+                "numpy.float64 / default; inside the domain, outside it and exactly at its end where "
+                "forward is NaN / infinite), x either side of the censor on every scale, y from the object "
+                "or from a new one, 1-D / 2-D / stored representations, jacobian / params_sample / "
+                "params_logprior / str called in between: backward_censored(forward(x), c) = max(x, c) "
+                "(increasing transforms), = the result of a new object, argument unchanged; "
                 "sessions = several live objects per class (and of the Box-Cox family together), built "
                 "directly and by get_transform, operations interleaved (forward, backward on the array "
                 "forward returned, backward_censored, parameter change, object replaced, input / returned "
@@ -166,6 +181,8 @@ def run(ctx):
         "independence of the results from the history of one object (parameters changed in place, by "
         "whole-vector assignment, reset()): tested (stateful mode), the model is a pure function of "
         "the stored values",
+        "backward_censored(forward(x), c) = max(x, c) on re-used objects whatever was set or called before "
+        "(constants, parameters, other objects of the class, other censor values): tested (censored lives)",
         "independence of the results from other live transform objects, from earlier calls, from the "
         "identity of the array objects passed and from the stored representation (strides, byte order, "
         "writeability) of the float64 input: tested (sessions)",
@@ -407,13 +424,17 @@ def run(ctx):
     extreme_checks(ctx)
     stateful_checks(ctx)
     t_extra = time.time() - t2
+    t4 = time.time()
+    censored_life_checks(ctx)
+    t_life = time.time() - t4
 
     # ---- E3
     t1 = time.time()
     bad, nok, nshards, failed = tc.run_e3(PID, goals, shard=ctx.scale(40, 60))
-    ctx.notes["timing_s"] = {"prove": round(t_prove, 1), "generate+oracle": round(t1 - t0 - t_prove - t_sess, 1),
+    ctx.notes["timing_s"] = {"prove": round(t_prove, 1), "generate+oracle": round(t1 - t0 - t_prove - t_sess - t_life, 1),
                              "e3": round(time.time() - t1, 1),
-                             "classX+stateful": round(t_extra, 1), "sessions": round(t_sess, 1)}
+                             "classX+stateful": round(t_extra, 1), "sessions": round(t_sess, 1),
+                             "censored-lives": round(t_life, 1)}
     ctx.notes["correspondence_goals"] = len(goals)
     ctx.notes["correspondence_mismatches"] = len(bad)
     ctx.notes["e3_shards"] = nshards
@@ -501,6 +522,61 @@ def extreme_checks(ctx):
                 ctx.count((name, "X") + branch_sig(name, eff, x))
             n += len(xs)
     ctx.notes["classX_points"] = n
+    edge_checks(ctx)
+
+
+# input class E (oracle only): the classes that class X does not concern, at the ENDS of the
+# ranges in which transform_common.points draws at random (and rarely lands on): Logit within
+# 1e-4 of either bound, LogSinh w = 1e-4 (the end stated by the property) .. 30, Reciprocal and
+# Sinh arguments of 1e-6 and 1e6, Manly |x|/xmax = 1e-6 and at the limit |lam*x/xmax| = 13.8
+# (or 1e3), Identity 1e5; every point passes the acceptance test of the sessions (in_region).
+# Measured on the unchanged code (6 seeds x 40 vectors per class and constructor variant):
+# round-trip error <= 0.07 x the oracle's tolerance (Manly), <= 3e-5 x for the other classes.
+
+def edge_points(name, opts, vals):
+    xs = []
+    if name == "Identity":
+        xs = [0.0, 1e5, -1e5, 1e-5, -1e-5]
+    elif name == "Logit":
+        d = math.exp(vals["logdelta"])
+        xs = [vals["lower"] + v * d for v in (1.0001e-4, 1e-3, 0.5, 1 - 1e-3, 1 - 1.0001e-4)]
+    elif name == "LogSinh":
+        a, b = math.exp(vals["loga"]), math.exp(vals["logb"])
+        xs = [(w - a) / b * vals["xmax"] for w in (1.0001e-4, 1e-3, 1e-2, 1.0, 10.0, 29.9)]
+    elif name == "Reciprocal":
+        xs = [z - vals["nu"] for z in (1.0001e-6, 1e-3, 1.0, 1e3, 9.99e5)]
+    elif name == "Sinh":
+        xs = [vals["nu"]] + [sg * u / vals["scale"] + vals["nu"]
+                             for u in (1.0001e-6, 1e-3, 1.0, 1e3, 9.99e5) for sg in (1, -1)]
+    elif name == "Manly":
+        lam = vals["lam"]
+        lim = min(1e3, tc.LNMAX / abs(lam)) if lam != 0 else 1e3
+        xs = [0.0] + [sg * u * vals["xmax"] for u in (1.0001e-6, 1e-3, 1.0, 0.999 * lim) for sg in (1, -1)]
+    return [float(x) for x in xs if in_region(name, opts, vals, x)]
+
+
+def edge_checks(ctx):
+    import random
+    rng = random.Random(f"{PID}:edges:{ctx.seed}")
+    n = 0
+    for name in ("Identity", "Logit", "LogSinh", "Reciprocal", "Sinh", "Manly"):
+        cm.mark({"call": "transform (class E)", "class": name})
+        variants = tc.ctor_variants(name, rng)
+        nvec = ctx.scale(14, 40) if tc.bounds(name, variants[0]) else 1
+        for vi, opts in enumerate(variants):
+            for k, vals in enumerate(tc.param_vectors(name, opts, rng, nvec)):
+                t, eff = tc.make(name, opts, vals, via_get=k % 8 == 3)
+                xs = edge_points(name, opts, eff)
+                if not xs:
+                    continue
+                base = {"class": name, "opts": opts, "values": eff, "via_get_transform": k % 8 == 3,
+                        "input_class": "ends of the conditioning region"}
+                for mode, rep, text in roundtrip_failures(t, name, opts, eff, xs):
+                    ctx.failure(f"C01/{name}/{mode}", dict(base, **rep), f"{name}{opts} {eff}: {text}")
+                for j, x in enumerate(xs):
+                    ctx.count((name, "E", j) + branch_sig(name, eff, x))
+                n += len(xs)
+    ctx.notes["classE_points"] = n
 
 
 def _same(a, b, scale):
@@ -601,6 +677,508 @@ def stateful_checks(ctx):
                                         f"holding {eff}: {text}")
                 ctx.count((name, "stateful", style, len(history) > 1), n=len(cmp_xs))
     ctx.notes["stateful_objects"] = nobj
+
+
+# ----------------------------------------------------------------------------
+# censored lives (oracle only): the round trip observed at backward_censored on RE-USED
+# objects.  For an increasing transform and a censor c, backward_censored(forward(x), c) is
+# backward(forward(x)) floored at c, i.e. max(x, c) (Props/C01.v: C01_backward_censored; a
+# censor outside the domain, where forward gives NaN, leaves the plain floored backward, which
+# is max(x, c) again because such a c lies below every x of the domain - or above all of them
+# for Logit).  One object lives through a sequence of settings; the steps change the constants
+# only / the parameters only / one value / everything / nothing (same values assigned again,
+# or no setter at all) / go back to an earlier setting, by every setter of the public API
+# (the six styles of the stateful mode and a caller-owned numpy array as whole vector); each
+# value is taken from the pool of branch values or moved by a factor / an offset either way
+# (so that forward(censor) rises as often as it falls).  A small set of censor values stays
+# the same for the whole life; after every step backward_censored is called with them: one
+# censor only (the one of the previous call), or all of them in turn, in changing order, the
+# same one twice in a row; censor passed as float / numpy.float64 / left to its default (0.);
+# inside the domain, and outside it for the classes whose forward gives NaN there.  The points x
+# straddle the censor on every scale (c +- d*s, d = 1e-3 .. 10, s the magnitude against which
+# x is compared) and include ordinary points of the domain; y = forward(x) is computed by the
+# object itself or by a new object holding the same values (then backward_censored is the
+# first call after the change); y is passed 1-D, 2-D or in a stored representation of REPRS.
+# Oracle: (1) backward_censored(forward(x), c) = max(x, c), relative 1e-6 in the measures of
+# the main loop (increasing transforms: all but Log with a base below 1); (2) same result as a
+# new object holding the same values (bit-identical or within the a priori bound), no
+# exception, the array passed is not modified; (3) the plain round trips on the same points.
+
+CENSOR_OFFSETS = (1e-3, 1e-2, 0.1, 0.5, 1.0, 3.0, 10.0)
+FACTORS = (0.1, 0.3, 0.5, 0.9, 0.999, 1.001, 1.1, 2.0, 3.0, 10.0)
+SHIFTS = (1e-3, 0.1, 1.0, 5.0)
+LIFE_EXCLUDED = ("YeoJohnson", "Softmax")       # forward(<float>) raises there (cast glue, see notes)
+
+
+def increasing(name, opts):
+    """forward is increasing on its domain (false only for Log with a base below 1)"""
+    if name == "Log":
+        base = tc.full_opts(name, opts)["base"]
+        return base is None or base > 1
+    return True
+
+
+def censor_scale(name, opts, vals, c):
+    s = max(abs(c), vals["xmax"]) if name == "Manly" else x_scale(name, opts, vals, c)
+    if name == "Sinh":
+        s = max(s, 1.0 / vals["scale"])
+    return s if s > 0 and math.isfinite(s) else 1.0
+
+
+def around(name, opts, vals, c):
+    """points of the conditioning region either side of c, on every scale"""
+    s = censor_scale(name, opts, vals, c)
+    out = []
+    for d in CENSOR_OFFSETS:
+        for x in (c + d * s, c - d * s):
+            if x != c and in_region(name, opts, vals, x):
+                out.append(float(x))
+    return out
+
+
+def nan_censor(name, opts, vals, c):
+    """c lies outside the domain, on a side where forward is NaN by an explicit guard or by
+    the logarithm / a non-integer power of a negative number (numpy semantics), with a margin,
+    or EXACTLY at the end of the domain (x + nu = 0, x = lower, x = upper; forward is then
+    -inf, +inf, the finite limit -1/lam or NaN): backward_censored is the plain backward
+    floored at c, and c is below every x of the domain (above, for the upper end of Logit)"""
+    try:
+        if name == "Logit":
+            d = math.exp(vals["logdelta"])
+            if c == vals["lower"] or c == vals["lower"] + d:
+                return True
+            return c < vals["lower"] - 1e-3 * d or c > vals["lower"] + (1 + 1e-3) * d
+        if name in ("Log", "BoxCox2", "BoxCox1lam", "BoxCox1nu"):
+            if c + vals["nu"] == 0:
+                return True
+            lam = vals.get("lam", 0.0)
+            if abs(lam) > tc.eps() and lam == round(lam):
+                return False          # integer power of a negative number: finite
+            return c + vals["nu"] < -1e-3 * max(abs(c), abs(vals["nu"]))
+        if name == "Reciprocal":
+            return c + vals["nu"] == 0 or c + vals["nu"] < -1e-3 * max(abs(c), abs(vals["nu"]))
+        if name == "LogSinh":
+            a, b = math.exp(vals["loga"]), math.exp(vals["logb"])
+            return c / vals["xmax"] <= -a / b
+    except (ValueError, OverflowError, ZeroDivisionError):
+        return False
+    return False
+
+
+def outside_censors(name, opts, vals):
+    """censor values outside the domain (see nan_censor)"""
+    cs = []
+    if name == "Logit":
+        d = math.exp(vals["logdelta"])
+        cs = [vals["lower"] - 0.5 * d, vals["lower"] - 10 * d - 1.0, vals["lower"] + 1.5 * d,
+              vals["lower"], vals["lower"] + d]
+    elif name in ("Log", "BoxCox2", "BoxCox1lam", "BoxCox1nu", "Reciprocal"):
+        cs = [-vals["nu"] - 0.5 * max(vals["nu"], 1e-3), -vals["nu"] - 7.0, -vals["nu"]]
+    elif name == "LogSinh":
+        a, b = math.exp(vals["loga"]), math.exp(vals["logb"])
+        cs = [(-a / b - 0.5) * vals["xmax"], (-2 * a / b - 3.0) * vals["xmax"], (-a / b) * vals["xmax"]]
+    return [float(c) for c in cs if math.isfinite(c) and nan_censor(name, opts, vals, c)]
+
+
+def censor_value_text(chow):
+    return "censor " + ("as in the object's previous call of backward_censored" if chow != "new" else
+                        "not used before on this object")
+
+
+def censored_oracle(name, opts, vals, xs, c, got):
+    """[(x, output, expected)] where backward_censored(forward(x), c) is not max(x, c)"""
+    rtol = rt_rtol(name, vals)
+    bad = []
+    for x, g in zip(xs, got):
+        want = max(x, c)
+        if not abs(g - want) <= rtol * x_scale(name, opts, vals, want):
+            bad.append((x, g, want))
+    return bad
+
+
+class CensoredLife:
+    def __init__(self, ctx, rng, name, opts, via_get, twin_opts=None):
+        self.ctx, self.rng, self.name, self.opts, self.via_get = ctx, rng, name, dict(opts), via_get
+        self.twin_opts = dict(opts if twin_opts is None else twin_opts)
+        nspecial = {"BoxCox2": 23, "BoxCox1lam": 23, "BoxCox1nu": 23, "BoxCox2sym": 23, "Manly": 17}.get(name, 8)
+        self.pool = tc.param_vectors(name, opts, rng, nspecial + 6)
+        self.b = tc.bounds(name, opts)
+        self.roles = {r: sorted(n for n in self.b if self.b[n][0] == r) for r in ("params", "constants")}
+        self.history, self.calls, self.settings = [], [], []
+        self.censors = [0.0]           # the default censor of the method
+        self.last = None               # censor of the previous call
+        self.keep = []                 # points of the previous step
+
+    # -- settings
+    def moved(self, n, v):
+        rng = self.rng
+        lo, hi = self.b[n][2], self.b[n][3]
+        how = rng.random()
+        if how < 0.25:
+            new = rng.choice(self.pool)[n]
+        elif how < 0.75 and v != 0:
+            new = v * rng.choice(FACTORS)
+        else:
+            new = v + rng.choice([1, -1]) * rng.choice(SHIFTS)
+        if math.isnan(new):
+            new = v
+        return min(max(new, lo), hi)
+
+    def next_changes(self, eff):
+        rng = self.rng
+        kinds = ["constants"] * (4 if self.roles["constants"] else 0) + ["params"] * 3 + \
+            ["one", "all", "pool", "same", "none", "back"]
+        kind = rng.choice(kinds) if eff else "none"
+        if kind == "back" and not self.settings:
+            kind = "none"
+        if kind == "constants":
+            ch = {n: self.moved(n, eff[n]) for n in self.roles["constants"]}
+        elif kind == "params":
+            ch = {n: self.moved(n, eff[n]) for n in self.roles["params"]}
+        elif kind == "one":
+            n = rng.choice(sorted(eff))
+            ch = {n: self.moved(n, eff[n])}
+        elif kind == "all":
+            ch = {n: self.moved(n, eff[n]) for n in eff}
+        elif kind == "pool":
+            ch = dict(rng.choice(self.pool))
+        elif kind == "same":
+            ch = dict(eff)
+        elif kind == "back":
+            ch = dict(rng.choice(self.settings))
+        else:
+            ch = {}
+        return kind, ch
+
+    def apply(self, t, style, changes):
+        if style == "values (numpy array of the caller)":
+            owned = []
+            for vec in (t.params, t.constants):
+                vn = [str(n) for n in vec.names]
+                if any(n in changes for n in vn):
+                    arr = np.array([changes[n] if n in changes else float(vec[n]) for n in vn], dtype=np.float64)
+                    vec.values = arr
+                    owned.append(arr)
+            for arr in owned:          # the caller reuses his array: the object keeps what it was given
+                arr[...] = 0.625
+        else:
+            tc.apply_step(t, style, changes)
+
+    # -- reporting
+    def fail(self, what, stateless, text, who="the object", **rep):
+        name = self.name
+        eff = self.eff if who == "the object" else self.twin_eff
+        key = f"C01/{name}/{what}" if stateless else f"C01/{name}/stateful-{what}"
+        base = {"class": name, "opts": self.opts, "opts_of_the_second_object": self.twin_opts,
+                "via_get_transform": self.via_get,
+                "input_class": "censored life: one object (and a second live object of the same class), "
+                               "settings changed between calls of backward_censored with recurring censor values",
+                "history": list(self.history), "failing_object": who, "values": eff,
+                "calls (last 12)": self.calls[-12:]}
+        self.ctx.failure(key, dict(base, **rep),
+                         f"{name}{self.opts if who == 'the object' else self.twin_opts} after "
+                         f"{len(self.history) - 1} operation(s) on one object"
+                         f"{'' if who == 'the object' else ' and a second live object (the failing one)'} (last: "
+                         f"{self.history[-1]}) holding {eff}: {text}")
+
+    # -- one call of backward_censored and its oracles
+    def other_methods(self, t, xs):
+        """public methods that must leave the transform as it is"""
+        rng = self.rng
+        which = rng.choice(["jacobian", "jacobian", "params_logprior", "params_sample", "str", "read"])
+        try:
+            with np.errstate(all="ignore"):
+                if which == "jacobian":
+                    t.jacobian(np.array(xs, dtype=np.float64))
+                elif which == "params_logprior":
+                    t.params_logprior()
+                elif which == "params_sample":
+                    state = np.random.get_state()
+                    try:
+                        t.params_sample(3)
+                    finally:
+                        np.random.set_state(state)
+                elif which == "str":
+                    str(t)
+                else:
+                    for n in tc.value_names(t):
+                        float(t[n]), float(getattr(t, n))
+                    np.array(t.params.values), np.array(t.constants.values)
+        except Exception:      # noqa: BLE001 - not C01's matter
+            pass
+        return which
+
+    def censored(self, c, xs, how_c, y_from, y_shape, who="the object"):
+        name, rng = self.name, self.rng
+        t, eff, opts = (self.t, self.eff, self.opts) if who == "the object" else \
+            (self.twin, self.twin_eff, self.twin_opts)
+        fresh, eff2 = tc.make(name, opts, eff)
+        if eff2 != eff:
+            return
+        ys, _ = tc.call(fresh if y_from == "new object" else t, "fwd", xs)
+        if ys is None:
+            return                      # (reported by the round-trip oracle below)
+        pairs = [(x, y) for x, y in zip(xs, ys) if math.isfinite(y)]
+        if not pairs:
+            return
+        xs, ys = [p[0] for p in pairs], [p[1] for p in pairs]
+        if y_shape == "2-D" and len(ys) % 2 == 0:
+            yin = np.array(ys, dtype=np.float64).reshape(2, -1)
+        elif y_shape in REPRS:
+            yin = Buf(ys, y_shape).arr
+        else:
+            yin, y_shape = np.array(ys, dtype=np.float64), "1-D"
+        before = _content(yin)
+        call = {"called_on": who, "censor": c, "censor_passed_as": how_c, "x": xs, "y": ys, "y_computed_by": y_from,
+                "y_passed_as": y_shape, "values": dict(eff)}
+        if rng.random() < 0.25:
+            call["called_just_before"] = self.other_methods(t, xs)
+        self.calls.append(call)
+        cm.mark({"call": "transform (censored life)", "class": name, "opts": opts, "values": eff,
+                 "censor": c, "x": xs})
+
+        def run(obj, arr):
+            with np.errstate(all="ignore"):
+                if how_c == "default":
+                    return _flat(obj.backward_censored(arr))
+                return _flat(obj.backward_censored(arr, np.float64(c) if how_c == "numpy.float64" else float(c)))
+        try:
+            ref, rerr = run(fresh, np.array(ys, dtype=np.float64)), None
+        except Exception as e:      # noqa: BLE001
+            ref, rerr = None, type(e).__name__
+        try:
+            got = run(t, yin)
+        except Exception as e:      # noqa: BLE001
+            self.fail("backward_censored-raises", rerr is not None,
+                      f"backward_censored(forward({xs!r}), {c!r}) raised {type(e).__name__}",
+                      who=who, method="backward_censored", exception=repr(e), **call)
+            return
+        call["output"] = got
+        if _content(yin) != before:
+            self.fail("backward_censored-modifies-its-input", False,
+                      f"backward_censored changed the array it was given: {ys!r} -> {_flat(yin)!r}",
+                      who=who, method="backward_censored", **call)
+        if len(got) != len(xs):
+            self.fail("backward_censored-differs-from-fresh-object", False,
+                      f"backward_censored of {len(xs)} values returned {len(got)}", who=who,
+                      method="backward_censored", **call)
+            return
+        region = in_accuracy_region(name, eff)
+        self.ctx.count((name, "life", who, self.step_kind, how_c, y_from, y_shape,
+                        "nan-censor" if nan_censor(name, opts, eff, c) else "censor-in-domain",
+                        any(x < c for x in xs), any(x > c for x in xs)), n=len(xs))
+        # (1) the property's clause: max(x, c)
+        if increasing(name, opts) and region:
+            bad = censored_oracle(name, opts, eff, xs, c, got)
+            if bad:
+                stateless = ref is not None and len(ref) == len(xs) and \
+                    bool(censored_oracle(name, opts, eff, xs, c, ref))
+                x, g, want = bad[0]
+                self.fail("backward_censored-roundtrip", stateless,
+                          f"backward_censored(forward({x!r}), censor={c!r}) = {g!r}, expected max(x, censor) = "
+                          f"{want!r} ({len(bad)} of {len(xs)} points wrong" +
+                          ("" if stateless else "; a new object holding the same values is right") + ")",
+                          who=who, method="backward_censored", x_failing=x, expected=want, reference_output=ref,
+                          **call)
+                return
+        # (2) independence of the history: a new object holding the same values
+        if ref is None or len(ref) != len(got):
+            return
+        try:
+            with np.errstate(all="ignore"):
+                tcen = float(fresh.forward(float(c)))
+        except Exception:      # noqa: BLE001
+            return
+        rtol = rt_rtol(name, eff)
+        for x, y, g, want in zip(xs, ys, got, ref):
+            if _same(g, want, x_scale(name, opts, eff, want) if math.isfinite(want) else 1.0):
+                continue
+            ok = False
+            if math.isfinite(g) and math.isfinite(want):
+                yc = y if math.isnan(tcen) else max(y, tcen)
+                tb = tc.tolerance(name, "bwd", opts, eff, yc, want)
+                if tb is None:
+                    continue
+                tol = 4 * tb + 1e-9 * max(1.0, abs(want))
+                if math.isfinite(tcen) and y <= tcen + 1e-6 * max(1.0, abs(tcen)):
+                    tol += 2 * rtol * x_scale(name, opts, eff, c)
+                ok = abs(g - want) <= tol
+            if not ok:
+                self.fail("backward_censored-differs-from-fresh-object", False,
+                          f"backward_censored(forward({xs!r}), censor={c!r}) = {got!r}; a new object holding the "
+                          f"same values gives {ref!r}", who=who, method="backward_censored", reference_output=ref,
+                          **call)
+                break
+
+    def twin_call(self, c):
+        """a second live object of the same class takes the values of the first but for the
+        constants / the parameters / one value / nothing, and is called with the censor the
+        first is about to be called with"""
+        name, opts, rng = self.name, self.twin_opts, self.rng
+        kind = rng.choice((["constants"] * 3 if self.roles["constants"] else []) + ["params", "one", "equal"] +
+                          (["equal"] * 2 if self.twin_opts != self.opts else []))
+        target = dict(self.eff)
+        for n in {"constants": self.roles["constants"], "params": self.roles["params"],
+                  "one": [rng.choice(sorted(target))], "equal": []}[kind]:
+            target[n] = self.moved(n, target[n])
+        style = rng.choice([s for s in tc.STYLES if s != "reset"] + ["values (numpy array of the caller)"])
+        self.history.append((f"second object: {style}", target))
+        try:
+            self.apply(self.twin, style, target)
+        except Exception:      # noqa: BLE001 - setters are exercised on the first object
+            return 0
+        self.twin_eff = teff = tc.stored_values(self.twin)
+        if any(math.isnan(v) for v in teff.values()):
+            return 0
+        if not (in_region(name, opts, teff, c) or nan_censor(name, opts, teff, c)):
+            return 0
+        xs = around(name, opts, teff, c) + [x for x in tc.points(name, opts, teff, rng, 3) if in_region(name, opts, teff, x)]
+        if in_region(name, opts, teff, c):
+            xs.append(c)
+        xs = list(dict.fromkeys(xs))
+        if not xs:
+            return 0
+        rng.shuffle(xs)
+        self.censored(c, xs[:14], "float", "the object" if rng.random() < 0.7 else "new object", "1-D",
+                      who="the second object")
+        return 1
+
+    def pick_censors(self):
+        """the censors of the life that are usable under the current setting (inside the
+        conditioning region, or outside the domain where forward is NaN); new ones join when
+        fewer than two are left"""
+        name, opts, eff, rng = self.name, self.opts, self.eff, self.rng
+        live = [c for c in self.censors if in_region(name, opts, eff, c) or nan_censor(name, opts, eff, c)]
+        if len([c for c in live if in_region(name, opts, eff, c)]) < 2:
+            cand = [x for x in tc.points(name, opts, eff, rng, 4) if in_region(name, opts, eff, x) and x not in live]
+            if cand:
+                c = rng.choice(cand)
+                self.censors.append(c)
+                live.append(c)
+        if not any(nan_censor(name, opts, eff, c) for c in live) and rng.random() < 0.5:
+            out = outside_censors(name, opts, eff)
+            if out:
+                c = rng.choice(out)
+                self.censors.append(c)
+                live.append(c)
+        if len(self.censors) > 6:       # the oldest that is not usable now leaves
+            for c in self.censors:
+                if c not in live:
+                    self.censors.remove(c)
+                    break
+            else:
+                self.censors.pop(1)
+                live = [c for c in live if c in self.censors]
+        return live
+
+    def run(self, nsteps):
+        name, opts, rng = self.name, self.opts, self.rng
+        first = None
+        for _ in range(20):
+            v = dict(rng.choice(self.pool))
+            if not v or tc.points(name, opts, tc.make(name, opts, v)[1], rng, 2):
+                first = v
+                break
+        if first is None:
+            return 0
+        self.t, self.eff = tc.make(name, opts, first, via_get=self.via_get)
+        self.twin, self.twin_eff = tc.make(name, self.twin_opts, first, via_get=not self.via_get)
+        self.history.append(("construct", first))
+        self.step_kind = "construct"
+        ncalls = 0
+        for si in range(nsteps + 1):
+            if si:
+                kind, changes = self.next_changes(self.eff)
+                style = rng.choice(tc.STYLES + ("values (numpy array of the caller)",)) if changes else "no setter"
+                if kind in ("same", "none", "back", "pool") and style == "reset":
+                    style = "values"
+                self.history.append((style, {} if style == "reset" else changes))
+                self.step_kind = "reset" if style == "reset" else kind
+                try:
+                    if changes or style == "reset":
+                        self.apply(self.t, style, changes)
+                except Exception as e:      # noqa: BLE001
+                    self.eff = tc.stored_values(self.t)
+                    self.fail("set-raises", False, f"{style} {changes} raised {type(e).__name__}", exception=repr(e))
+                    return ncalls
+            self.eff = eff = tc.stored_values(self.t)
+            if any(math.isnan(v) for v in eff.values()):
+                continue
+            self.settings.append(dict(eff))
+            live = self.pick_censors()
+            if not live:
+                continue
+            # one censor only (the one of the previous call when it is still usable), or all
+            # of them in a new order, one of them twice in a row
+            mode = rng.random()
+            if mode < 0.45 and self.last in live:
+                todo = [self.last]
+            elif mode < 0.6:
+                todo = [rng.choice(live)]
+            else:
+                todo = list(live)
+                rng.shuffle(todo)
+                if self.last in todo and rng.random() < 0.5:
+                    todo.remove(self.last)
+                    todo.insert(0, self.last)
+                if rng.random() < 0.3:
+                    todo.append(todo[-1])
+            base_pts = [x for x in tc.points(name, opts, eff, rng, 3) if in_region(name, opts, eff, x)]
+            kept = [x for x in self.keep if in_region(name, opts, eff, x)]
+            allx = []
+            for ci, c in enumerate(todo):
+                if ci == 0 and eff and rng.random() < (0.35 if self.twin_opts == self.opts else 0.6):
+                    ncalls += self.twin_call(c)
+                xs = around(name, opts, eff, c) + base_pts + kept[:4]
+                if in_region(name, opts, eff, c):
+                    xs.append(c)
+                xs = list(dict.fromkeys(xs))
+                if not xs:
+                    continue
+                rng.shuffle(xs)
+                xs = xs[:14]
+                how_c = "default" if c == 0.0 and rng.random() < 0.5 else rng.choice(["float", "float", "numpy.float64"])
+                y_from = "the object" if rng.random() < 0.7 else "new object"
+                y_shape = rng.choice(["1-D"] * 4 + ["2-D"] + list(REPRS[1:]))
+                self.censored(c, xs, how_c, y_from, y_shape)
+                self.last = c
+                ncalls += 1
+                allx += xs
+            # (3) the plain round trips on the re-used object
+            if allx:
+                rt = list(dict.fromkeys(allx))[:8]
+                fails = roundtrip_failures(self.t, name, opts, eff, rt)
+                if fails:
+                    fresh, eff2 = tc.make(name, opts, eff)
+                    stateless = {m for m, _, _ in roundtrip_failures(fresh, name, opts, eff, rt)} if eff2 == eff else set()
+                    for mode_, rep, text in fails:
+                        self.fail(mode_, mode_ in stateless, text, **rep)
+                self.keep = allx[-6:]
+        return ncalls
+
+
+def censored_life_checks(ctx):
+    import random
+    rng = random.Random(f"{PID}:censored-lives:{ctx.seed}")
+    nsteps = ctx.scale(16, 40)
+    nlives, ncalls = 0, 0
+    for name in tc.CLASSES:
+        if name in LIFE_EXCLUDED:
+            continue
+        variants = tc.ctor_variants(name, rng)
+        has_const = any(v[0] == "constants" for v in tc.bounds(name, variants[0]).values())
+        chosen = [variants[0]] + (variants[1:] if ctx.thorough else
+                                  rng.sample(variants[1:], min(2, len(variants) - 1)))
+        for vi, opts in enumerate(chosen):
+            for li in range(ctx.scale(3 if has_const else 1, 6 if has_const else 2)):
+                with _SessionBounds(ctx, [(name, v) for v in variants]):
+                    # (constructor options that enter forward itself: the base of Log)
+                    other = rng.choice(variants) if li % 2 == 1 or name == "Log" else opts
+                    life = CensoredLife(ctx, rng, name, opts, via_get=(vi + li) % 3 == 2, twin_opts=other)
+                    ncalls += life.run(nsteps if tc.bounds(name, opts) else 4)
+                nlives += 1
+    ctx.notes["censored_lives"] = nlives
+    ctx.notes["censored_life_calls"] = ncalls
 
 
 def shape_checks(ctx):
@@ -874,6 +1452,7 @@ class Actor:
         self.idx, self.name, self.opts, self.vecs = idx, name, dict(opts), vecs
         self.t = self.want = self.buf = self.how = None
         self.Y = self.Yvals = self.Yx = self.B = None
+        self.censor = None
 
     def describe(self):
         return {"object": self.idx, "class": self.name, "opts": self.opts, "built": self.how,
@@ -958,6 +1537,7 @@ class Session:
             a.t, a.want = tc.make(a.name, a.opts, vals, via_get=a.how == "get_transform")
             a.Y = a.Yvals = a.Yx = a.B = None
             a.buf = None
+            a.censor = None
             if self.fill(a) != "none":
                 break
         self.log(a, "build", how=a.how, values=a.want)
@@ -1163,10 +1743,16 @@ class Session:
         if a.Yvals is None or not all(math.isfinite(y) for y in a.Yvals):
             return
         ys, xs0 = list(a.Yvals), list(a.Yx)
-        censor = xs0[self.rng.randrange(len(xs0))]
+        # the censor of the object's previous call of backward_censored (whatever was set or
+        # called since) while it is still inside the region, else one of the current points
+        if a.censor is not None and self.rng.random() < 0.7 and in_region(a.name, a.opts, a.want, a.censor):
+            censor, chow = a.censor, "as in the previous call"
+        else:
+            censor, chow = xs0[self.rng.randrange(len(xs0))], "new"
+        a.censor = censor
         yin, ykind = self._y_argument(a)
         before = _content(yin)
-        self.log(a, "backward_censored", input=ykind, y=ys, censor=censor)
+        self.log(a, "backward_censored", input=ykind, y=ys, censor=censor, censor_value=chow)
         try:
             with np.errstate(all="ignore"):
                 cvals = _flat(a.t.backward_censored(yin, censor))
@@ -1181,6 +1767,34 @@ class Session:
         ref = self.reference(a)
         if ref is None:
             return
+        self.ctx.count((a.name, "session", "censored", chow))
+        # the property's clause: backward_censored(forward(x), c) = max(x, c) (increasing transforms)
+        if increasing(a.name, a.opts) and in_accuracy_region(a.name, a.want) and len(cvals) == len(xs0) and \
+                all(in_region(a.name, a.opts, a.want, x) for x in xs0):
+            bad = censored_oracle(a.name, a.opts, a.want, xs0, censor, cvals)
+            if bad:
+                try:
+                    with np.errstate(all="ignore"):
+                        r0 = _flat(ref.backward_censored(np.array(ys, dtype=np.float64), censor))
+                    f0, _ = tc.call(ref, "fwd", xs0)
+                    stateless = bool(censored_oracle(a.name, a.opts, a.want, xs0, censor, r0)) and \
+                        f0 is not None and all(_same(u, v, 1.0) for u, v in zip(f0, ys))
+                except Exception:      # noqa: BLE001
+                    r0, stateless = None, False
+                x, g, want = bad[0]
+                plain = f"C01/{a.name}/backward_censored-roundtrip"
+                if stateless:
+                    self.ctx.failure(plain, {"class": a.name, "opts": a.opts, "values": a.want, "x": xs0, "y": ys,
+                                             "censor": censor, "output": cvals},
+                                     f"{a.name}{a.opts} {a.want}: backward_censored(forward({x!r}), censor={censor!r}) = "
+                                     f"{g!r}, expected max(x, censor) = {want!r}")
+                else:
+                    self.fail(a, "backward_censored-roundtrip-broken",
+                              f"backward_censored(forward({x!r}), censor={censor!r}) = {g!r}, expected max(x, censor) = "
+                              f"{want!r} ({censor_value_text(chow)}; a new object holding the same values gives {r0!r})",
+                              method="backward_censored", x=xs0, y=ys, censor=censor, output=cvals,
+                              reference_output=r0)
+                return
         try:
             with np.errstate(all="ignore"):
                 r = _flat(ref.backward_censored(np.array(ys, dtype=np.float64), censor))
